@@ -210,11 +210,30 @@ def run(tier, seed, replay=None):
     # ---- several sources in one invocation, some of them failing: which diagnostics appear and which outputs exist must not
     # vary from process to process
     multi_dir = common.workdir("c08multi")
+    n_multi = 0
     good = "import qmluic.QtWidgets\nQWidget { QCheckBox { id: c } QLabel { enabled: c.checked; text: \"%s\" } }\n"
     bad = "import qmluic.QtWidgets\nQWidget { %s: 1 }\n"
+    # a warning-only source in front of others: what is reported for a source must not depend on the sources before it
+    warn = "import qmluic.QtWidgets 6.2\nQWidget { QLabel { text: \"%s\" } }\n"
+    for srcs in (["WarnA.qml", "Good1.qml"], ["Good1.qml", "WarnA.qml", "Good2.qml", "WarnB.qml", "Good3.qml"], ["WarnA.qml", "WarnB.qml", "Good1.qml"]):
+        pdir = os.path.join(multi_dir, "w_" + "_".join(x[:-4] for x in srcs))
+        os.makedirs(pdir)
+        # one directory per source: a source's directory is scanned for components, and the other files found there are reported too
+        srcs = [os.path.join("d%d" % i, fn) for i, fn in enumerate(srcs)]
+        for fn in srcs:
+            os.makedirs(os.path.join(pdir, os.path.dirname(fn)))
+            with open(os.path.join(pdir, fn), "w") as f:
+                f.write(good % fn if "Good" in fn else warn % fn)
+        base_cmd = [common.CLI, "generate-ui", "--foreign-types", common.METATYPES]
+        whole = subprocess.run(base_cmd + srcs, cwd=pdir, capture_output=True, text=True, env=dict(os.environ, NO_COLOR="1"), timeout=120)
+        parts = [subprocess.run(base_cmd + [fn], cwd=pdir, capture_output=True, text=True, env=dict(os.environ, NO_COLOR="1"), timeout=120) for fn in srcs]
+        n_multi += 1 + len(srcs)
+        if whole.returncode == 0 and all(p.returncode == 0 for p in parts) and whole.stderr != "".join(p.stderr for p in parts):
+            v.violation("cli-history-dependent", "what generate-ui %r reports differs from what it reports for the same sources one by one "
+                        "(diagnostics of a source depend on the sources named before it)" % srcs,
+                        {"sources": srcs, "together": whole.stderr[-1500:], "one_by_one": "".join(p.stderr for p in parts)[-1500:]})
     scenarios = [["BadA.qml", "BadB.qml"], ["Good1.qml", "BadA.qml"], ["Good1.qml", "BadA.qml", "Good2.qml", "BadB.qml"],
                  ["Good1.qml", "Good2.qml", "Good3.qml", "BadB.qml", "BadA.qml"], ["BadB.qml", "Good1.qml", "Good2.qml"]]
-    n_multi = 0
     for si, srcs in enumerate(scenarios):
         results = []
         for rep in range(6 if tier == "quick" else 24):
